@@ -289,7 +289,7 @@ func propC08(w *World, r *Report) {
 			}
 		}
 	}
-	r.Check(nCopies >= 5, "G4", "copies found", "-", fmt.Sprint(nCopies))
+	r.Check(nCopies >= 3, "G4", "copies found", "-", fmt.Sprint(nCopies))
 	// N3: element stores into the background
 	n3 := 0
 	for _, fn := range d.Funcs {
@@ -978,10 +978,14 @@ func clampOnlyUses(v ssa.Value, isT func(ssa.Value) bool, depth int) ssa.Instruc
 					ti = i
 				}
 			}
-			if pi < 0 || ti < 0 {
+			if pi < 0 {
 				return x
 			}
-			if bad := clampOnlyUses(callee.Params[pi], func(q ssa.Value) bool { return q == ssa.Value(callee.Params[ti]) }, depth+1); bad != nil {
+			inner := isT // a closure / method reads the threshold itself (same predicate, evaluated on its own values)
+			if ti >= 0 {
+				inner = func(q ssa.Value) bool { return q == ssa.Value(callee.Params[ti]) }
+			}
+			if bad := clampOnlyUses(callee.Params[pi], inner, depth+1); bad != nil {
 				return bad
 			}
 		case *ssa.Return:
